@@ -21,9 +21,9 @@ Proof.
     rewrite rep_l_cons, rep_t_eq in R. destruct R as ((Hi & _) & Hr).
     rewrite (get_ok _ _ _ Hi). cbn [rbind nname nnext find tname].
     destruct (nm =? 0) eqn:E0; cbn [negb andb].
-    + rewrite <- hid_hid_or. rewrite (IH par (Some i) fuel Hr) by (cbn in Hf; lia). rewrite E0. reflexivity.
+    + rewrite <- hid_hid_or. rewrite (IH par (Some i) fuel Hr) by (cbn in Hf; lia). rewrite ?E0. reflexivity.
     + destruct (n =? nm); [reflexivity|].
-      rewrite <- hid_hid_or. rewrite (IH par (Some i) fuel Hr) by (cbn in Hf; lia). rewrite E0. reflexivity.
+      rewrite <- hid_hid_or. rewrite (IH par (Some i) fuel Hr) by (cbn in Hf; lia). rewrite ?E0. reflexivity.
 Qed.
 
 Lemma focus_len h s x frs o l1 tx l2 :
@@ -103,8 +103,10 @@ Proof.
       * rewrite <- Ems in *. assert (Hms : ms <> []) by (rewrite Ems; discriminate).
         set (lm := last ms 0).
         assert (Hlm : lm < length k).
-        { apply (ms_bound k nm). fold ms. destruct (exists_last Hms) as (a & y & Ea). unfold lm. rewrite Ea, last_last.
-          apply in_or_app. right. left. reflexivity. }
+        { assert (Hin : In lm (matches nm 0 k)).
+          { fold ms. destruct (exists_last Hms) as (a & y & Ea). unfold lm. rewrite Ea, last_last.
+            apply in_or_app. right. left. reflexivity. }
+          destruct (matches_bounds _ _ _ _ Hin) as ((_ & B) & _). lia. }
         destruct (nth_id_some k lm Hlm) as (tlm & Elm & Eilm).
         change (match ms with [] => None | _ :: _ => Some (last ms 0) end) with (Some lm) || idtac.
         assert (Eid : idx_id k (match ms with [] => None | _ :: _ => Some (last ms 0) end) = Some (tid tlm)).
